@@ -4,7 +4,7 @@
 # Writes /tmp/seed_out/<id>/<m>/verify.json
 set -u
 ID=$1; M=$2
-WT=/tmp/wt/$ID; OUT=/tmp/seed_out/$ID/$M
+WT=${WT_PREFIX:-/tmp/wt/}$ID; OUT=${SEED_ROOT:-/tmp/seed_out}/$ID/$M
 export CARGO_NET_OFFLINE=true
 cd $WT || exit 2
 git checkout -q -- . ; git clean -fdq -e target
